@@ -24,6 +24,7 @@ func init() {
 			{"C07/shared-state", "request-serving code touches only the frozen shared containers; no other shared mutable state, no variable able to hold a tunnel carrier", c07SharedState},
 			{"C07/keys", "legacy cache keyed by the request's connection id / the tunnel's RDGId from that header; registry keyed by a fresh UUID", c07Keys},
 			{"C07/fresh", "Tunnel values constructed only per request in HandleGatewayProtocol; Processor only in NewProcessor", c07Fresh},
+			{"C07/ntlm-session", "the NTLM exchange of a request is keyed by that connection's address, so tunnels setting up from one host do not share a server session (C05's NTLM gate rule)", func(c *Ctx) { c05NtlmGateAs(c, "C07/ntlm-session") }},
 			{"C07/context-only", "security callbacks use only the tunnel of their own context; the packet loop's context carries its own tunnel", c07ContextOnly},
 			{"C07/shared-slices", "request-serving code never writes into a slice shared between requests (element store or append(s[:0], ...) on a package-variable / long-lived-field slice)", func(c *Ctx) { sharedSliceWrites(c, "C07/shared-slices") }},
 		},
